@@ -159,3 +159,35 @@ def run(fb, rep):
         rep.ok(R, "every variable yielded by refined_variables.exit_scope() is handed to Substitution::reset (loop)")
     else:
         rep.violation(R, "reset-not-fed", "the variables recorded for an alternative are not all reset (Substitution::reset is not called in a loop over exit_scope()'s result)", t.where())
+
+
+def r2h(fb, rep):
+    """R2h — one source of truth for an imported module's type (C02).
+
+    The type checker types `import! m` with the *typechecked* type of m (the `module_type` query behind the environment),
+    while the code generator loads whatever value the module store (`gluon_vm::vm::Global` built by a query function) holds.
+    `compiler_pipeline::run_io` replaces an `IO a` action by the result of running it and rewrites the type to `a`; that is
+    sound for a top-level `run_expr`, whose caller receives type and value together, but not for the module store: with IO
+    execution enabled an importer sees `IO a` and finds an `a` ("Cannot call 41").  Rule: run_io is called only by the
+    top-level executables, never by a function that builds the stored `Global` of a module."""
+    R = "R2h"
+    rep.rule(R, "the module store keeps the evaluated module as typed by the checker: run_io only in top-level executables")
+    G = "gluon_vm::vm::Global"
+    pool = [b for b in fb.bodies.values() if b.kind != "coroutine_post" and b.crate.name == "gluon"] + [b for b in fb.pre.values() if b.crate.name == "gluon"]
+    stores = {}
+    runs = {}
+    for b in pool:
+        root = b.get("root") or b.id.split("::{closure")[0]
+        if any(rv[0] == "agg" and rv[1][0] == "adt" and rv[1][1] == G for i, j, pl, rv, ln in b.assigns()):
+            stores[root] = b
+        for c in b.calls():
+            if c.res.endswith("compiler_pipeline::run_io"):
+                runs.setdefault(root, c)
+    rep.floor(R, "functions building a stored module Global", len(stores), 3)
+    rep.floor(R, "callers of run_io", len(runs), 1)
+    for root, c in sorted(runs.items()):
+        if root in stores:
+            rep.violation(R, "module-store-runs-io|%s" % root, "%s stores a module after compiler_pipeline::run_io replaced its IO action by the action's result: importers are "
+                          "type-checked against `IO a` (module_type) but load an `a`" % root, c.where())
+        else:
+            rep.ok(R, "%s: run_io at the top level (type and value returned together)" % root)
